@@ -137,8 +137,8 @@ def conformance(chk, inst, aut, ids, wit, apath, nsim):
     extra = [[inst['alphabet'].index(c) for c in w] for w in wit.values() if w]
     if inst['luhn']:
         a = len(inst['alphabet'])
-        for pre in ([], [1], [3, 4], [0, 1, 2]):
-            for post in ([], [5 % a], [1, 0]):
+        for pre in ([], [1 % a], [3 % a, 4 % a], [0, 1 % a, 2 % a]):
+            for post in ([], [5 % a], [1 % a, 0]):
                 extra.append(pre + [0, a - 1] + post)
                 extra.append(pre + [a - 1, 0] + post)
     events = []
